@@ -34,7 +34,8 @@ PROBES = ["enable_while_enabled", "disable_while_disabled", "enable_and_disable_
           "op_on_timer", "ball_search_started", "ball_search_flip", "tilt", "slam_tilt", "service_entered",
           "service_in_game", "game_ended", "lifecycle_disable_with_rules", "eos_repulse",
           "disable_with_button_held", "disable_with_repulse_hold", "kickback_fired", "ball_started_enable",
-          "rules_checked_nonempty", "outside_play_checked", "reaction_fired", "final_clean_checked"]
+          "rules_checked_nonempty", "outside_play_checked", "reaction_fired", "final_clean_checked",
+          "tilt_while_ball_starting"]
 REAL = ["mpf.devices.flipper.Flipper", "mpf.devices.autofire.AutofireCoil", "mpf.devices.kickback.Kickback",
         "mpf.core.platform_controller.PlatformController + SoftwareEosRepulseManager",
         "mpf.core.switch_controller.SwitchController", "mpf.devices.driver.Driver", "mpf.core.ball_search.BallSearch",
@@ -296,6 +297,7 @@ def execute(ctx, plan):
         g = m.game
         if g is None:
             play["ball"] = False
+            play["starting"] = False
         if not (g and g.tilted):
             play["tilt"] = False
         service = bool(m.service.is_in_service())
@@ -343,6 +345,9 @@ def execute(ctx, plan):
         update_phase()
         play["ball"] = True
         play["end_seen"] = False
+        if play.pop("tilt_pending", False) and m.game is not None and m.game.tilted:
+            play["tilt"] = True
+            episode[0] += 1
         for d in BALL_STARTED_DEVS:
             m_enable(d, "ball_started")
 
@@ -397,14 +402,28 @@ def execute(ctx, plan):
         ctx.probe("tilt")
         ctx.log("ev", "tilt", phase["ball"], t=loop.time())
         update_phase()
+        # a ball counts as "in play" for a tilt from ball_will_start on: a tilt that lands while the ball is still
+        # starting (somebody holds ball_starting) must end that ball as soon as it has started
         if play["ball"]:
             play["tilt"] = True
             episode[0] += 1
+        elif play.get("starting"):
+            # judged once the ball has started: MPF ends it right away (ball_started, then ball_will_end in the same
+            # cascade), so at the next quiescent point nothing may be enabled on behalf of the game
+            play["tilt_pending"] = True
+            ctx.probe("tilt_while_ball_starting")
     on_event("tilt", h_tilt)
+
+    def h_ball_will_start(**kwargs):
+        update_phase()
+        play["starting"] = True
+    on_event("ball_will_start", h_ball_will_start)
 
     def h_ball_ending(**kwargs):
         update_phase()
         play["ball"] = False
+        play["starting"] = False
+        play.pop("tilt_pending", None)
         if not play["end_seen"]:
             # MPF went into ball_ending without having posted ball_will_end for this ball
             episode[0] += 1
